@@ -589,7 +589,8 @@ class DAG(nx.DiGraph):
         >>> student.is_dconnected('grades', 'sat')
         True
         """
-        if end in self.active_trail_nodes(start, observed)[start]:
+        active = self.active_trail_nodes(start, observed, include_latents=True)
+        if end in active[start]:
             return True
         else:
             return False
